@@ -290,7 +290,7 @@ def r4(ctx, fs):
     f = fs.fn(SC + 'new_clause')
     env = LocalEnv(f)
     env.param_roles(['lits'])
-    env.local_role('p', lambda n, i: n.get('t') == 'smt::lit')
+    env.local_role('p', lambda n, i: n.get('t') == 'smt::lit' and not n.get('synthetic') and isinstance(n.get('init'), dict) and (i is None or (isinstance(i, tuple) and i[0] in ('lit', 'new') and all(isinstance(x, tuple) and x[0] == 'num' for x in i[1:] if not isinstance(x, str)) and not any(isinstance(x, str) and x not in ('smt::lit',) for x in i[1:]))))     # default-constructed: the previous literal kept across iterations       # the previous literal kept across iterations, not a copy of the current one
     loop = [n for n in f.nodes() if n.get('k') == 'CXXForRangeStmt' and canon(n['slots']['range'], env, subst=False) == 'lits']     # any loop over all literals is normalised to this form
     if len(loop) != 1:
         raise AnalysisBroken('%s: filtering loop not found' % f.id)
